@@ -323,16 +323,19 @@ type Case struct {
 	Chain  bool     `json:"chain,omitempty"` // msg: also run through a compose chain
 	Msgs   []*Msg   `json:"msgs,omitempty"`
 	Lists  [][]*Msg `json:"lists,omitempty"`
-	MMaps  []MMap   `json:"mmaps,omitempty"` // msgmap: map chunks whose values may be messages
-	Typed  bool     `json:"typed,omitempty"` // msgmap: static type map[string]*schema.Message instead of map[string]any
-	Any    bool     `json:"any,omitempty"`   // generic: the static chunk type is any (interface-typed stream)
+	MMaps  []MMap   `json:"mmaps,omitempty"`  // msgmap: map chunks whose values may be messages
+	Typed  bool     `json:"typed,omitempty"`  // msgmap: static type map[string]*schema.Message instead of map[string]any
+	Any    bool     `json:"any,omitempty"`    // generic: the static chunk type is any (interface-typed stream)
 	Tagged bool     `json:"tagged,omitempty"` // generic + any: the static chunk type is the interface type Tagged (every chunk is an S0, a *S0 or nil)
-	Fanin  bool     `json:"fanin,omitempty"` // msgmap: every chunk holds one message under one key; also run as a compose fan-in
+	Fanin  bool     `json:"fanin,omitempty"`  // msgmap: every chunk holds one message under one key; also run as a compose fan-in
 	// generic (not any) / msg: the reader reports a read error in front of chunk ErrAt (0..len); only the
 	// stream-level entry points are run
 	ErrAt *int `json:"err_at,omitempty"`
 	// deep: map[string]any chunks with messages / message lists / nested maps at any depth (deep.go)
 	Deep []DMap `json:"deep,omitempty"`
+	// generic / msg (without read error): also concatenate the chunk list Conc times on two goroutines while
+	// three others concatenate chunk lists of other types (conc.go)
+	Conc int `json:"conc,omitempty"`
 }
 
 // coqItems: what the reader delivers as a list of sitem (Model/ConcatStream.v)
@@ -484,10 +487,16 @@ func concatGoErr(chunks []*CV, errAt int) (o Obs) {
 	for i, c := range chunks {
 		vals[i] = c.toGo()
 	}
-	var out any
-	var err error
 	pre := snapshotVals(vals)
 	defer func() { compareVals(pre, vals) }()
+	return concatVals(chunks, vals, errAt)
+}
+
+// concatVals: concatStreamReader on the built chunk values at their static type (no harness state
+// is touched: safe to call from several goroutines)
+func concatVals(chunks []*CV, vals []any, errAt int) (o Obs) {
+	var out any
+	var err error
 	p := lib.Recover(func() {
 		if len(chunks) == 0 {
 			out, err = concatTyped[string](vals, errAt)
@@ -653,8 +662,8 @@ const (
 	tdMapAny
 	tdMapStr
 	tdMapInt
-	tdMapIK // map[int]string
-	tdMyMap // MyMap
+	tdMapIK  // map[int]string
+	tdMyMap  // MyMap
 	tdS0Twin // the twin of S0 (same printed name, different type)
 	tdNil
 	nTD
@@ -837,10 +846,17 @@ func (engine) CoqHeader() string {
 func (engine) CoqCaseType() string { return "ccase" }
 
 func (engine) Generate(r *lib.Rng, tier string, i int) any {
+	var c *Case
 	if i%2 == 1 {
-		return genMsgCase(r, tier)
+		c = genMsgCase(r, tier)
+	} else {
+		c = genGeneric(r, tier)
 	}
-	return genGeneric(r, tier)
+	// drawn last, so that the chunk lists of a seed are what they were before this field existed
+	if (c.Kind == "generic" || c.Kind == "msg") && c.ErrAt == nil && r.Chance(1, concOneIn) {
+		c.Conc = concRounds
+	}
+	return c
 }
 
 func (engine) Decode(raw json.RawMessage) (any, error) {
@@ -986,6 +1002,15 @@ func (engine) Run(ci any) lib.Result {
 	if genericMut != "" && res.Oracle == "" {
 		res.Oracle = genericMut
 		res.Sig = "generic-input-mutated"
+	}
+	if c.Conc > 0 {
+		res.Tags = append(res.Tags, "feat:concurrent")
+		if res.Oracle == "" {
+			if why := concurrentPhase(c, func() string { return concatPure(c, c.Chunks) }); why != "" {
+				res.Oracle = why
+				res.Sig = "concurrent-nondet"
+			}
+		}
 	}
 	return res
 }
